@@ -71,7 +71,7 @@ def run_unit(name, tier, seed):
 
 def replay(c):
     if c['kind'] == 'hang':
-        return (True, 'exceeded 5 s again') if hist.hangs(c['cls'], c['witness']['ops']) else (False, 'finished within the limit')
+        return (True, 'exceeded 30 s again') if hist.hangs(c['cls'], c['witness']['ops']) else (False, 'finished within the limit')
     f = judge_concrete(c['cls'], c['witness']['ops'], c['witness'])
     if not any(k == c['kind'] for k, _ in f):
         return False, 'multiset is completable / addition rejected'
